@@ -37,9 +37,13 @@ def gen(rs, tier, index):
     ratio = rng.choice([4, 4, 5, 6, 7, 8, 10, 16, 25, 33, 64, rng.randint(4, 64)])
     if rng.random() < 0.03:
         ratio = rng.choice([434, 434, 500, 868])      # slow links (434 = 50 MHz / 115200 baud, the library's own HIL configuration)
+    if rng.random() < 0.006:
+        ratio = rng.choice([2604, 5208, 7500, 10416])     # 9600 baud on a 25 / 50 / 72 / 100 MHz clock: tens of thousands of clocks per frame
     nbytes = rng.randint(1, 8) if (tier == 'quick' or ratio > 32) else rng.randint(1, 14)
     if ratio > 64:
         nbytes = rng.randint(1, 3)
+    if ratio > 1000:
+        nbytes = 2
     P = 2 * (ratio // 2)
     data = []
     for _ in range(nbytes):
@@ -150,6 +154,8 @@ def run(scn, log, st):
         sim = hw.getSimulator()
     if ratio > 64:
         st.probe('slow_link')
+    if ratio > 1000:
+        st.probe('frame_longer_than_16_bit_counter' if ratio * 10 > 65535 else 'very_slow_link')
     seams.EdgeShuffler(sim, random.Random(scn['perm_seed']), st)
     crng = random.Random(scn['cons_seed'])
     todo = list(scn['bytes'])
